@@ -5,6 +5,7 @@ from .common import *   # noqa: F401,F403
 from . import C11 as c11
 from . import C01 as c01
 
+LEAF = ['Leaf_tick', 'Leaf_query']      # translated leaf functions this property's model relies on (Tie/<name>.v)
 RULE = ("(a) tempo maps with extreme accelerations/decelerations (n alternating 1 <-> 10^9), sub-microsecond ticks (BPM x resolution up to 10^12), and ordinary maps; ascending runs of "
         "consecutive ticks straddling 1-5 tempo boundaries plus random ticks (<= 60 per map), queried through timestamp_at_tick_no_optimize_return; judged: non-decreasing, equal ticks equal "
         "times, and strictly increasing whenever n x resolution <= 3*10^10 at every tempo (and the run lies in C01's domain); "
